@@ -529,6 +529,12 @@ func histScenario(c *core.Ctx) {
 		}
 	})
 	ok := env.RunClients("history")
+	if !ok {
+		// the client did not finish (deadlock or step cap, already recorded): nothing it reports from here on is
+		// meaningful, and closing the indexes under it would only add noise
+		c.TolerateLeak = true
+		return
+	}
 	s.Spawn("closer", func() {
 		for _, h := range []*histClient{a, b} {
 			if h.idx != nil {
